@@ -2,6 +2,7 @@ package main
 
 import (
 	"fmt"
+	"os"
 	"go/constant"
 	"go/token"
 	"go/types"
@@ -539,6 +540,9 @@ func (ex *Exec) toInt64(v Value, t types.Type) *Term {
 }
 
 func (ex *Exec) throwRuntime(msg string) {
+	if debugPanic {
+		fmt.Fprintf(os.Stderr, "RUNTIME-PANIC %s at %s\n", msg, ex.where())
+	}
 	panic(targetPanic{Iface{t: ex.prog.runtimeErrorType, v: ex.constString("runtime error: " + msg)}})
 }
 
@@ -869,7 +873,7 @@ func (ex *Exec) ptrIntOp(op token.Token, a PtrInt, k *Term, b PtrInt, swapped bo
 		case token.NEQ:
 			return st.Not(st.And(mkBool(b.p.obj == nil), st.Eq(k, zero64)))
 		}
-		panic(pathEnd{stOutOfModel, "uintptr arithmetic"})
+		panic(pathEnd{stOutOfModel, "uintptr arithmetic " + op.String() + " at " + ex.where()})
 	}
 	switch op {
 	case token.ADD:
@@ -881,7 +885,7 @@ func (ex *Exec) ptrIntOp(op token.Token, a PtrInt, k *Term, b PtrInt, swapped bo
 	case token.NEQ:
 		return st.Not(st.And(mkBool(a.p.obj == nil), st.Eq(k, zero64)))
 	}
-	panic(pathEnd{stOutOfModel, "uintptr arithmetic"})
+	panic(pathEnd{stOutOfModel, "uintptr arithmetic " + op.String() + " at " + ex.where()})
 }
 
 func (ex *Exec) shift(op token.Token, a *Term, signed bool, y Value, yt types.Type) Value {
